@@ -231,8 +231,9 @@ func (a *asyncFifoRetryImpl) overwrite(ctx context.Context, key []byte, prevOpRe
 		return 0, err
 	}
 
-	if len(val) == 0 || modRev != prevOpRev {
-		// not found or revision not match, just do nothing and return
+	if modRev != prevOpRev {
+		// revision not match, just do nothing and return (a key that is not found is reported by the error above:
+		// a value that is found may be empty)
 		//! we assume:
 		//!   if getting is successful, it should be the latest value.
 		//!   and the result of prev uncertain operation can be certain now,
